@@ -21,6 +21,8 @@ Explains(e) ==
                             /\ (~IsNone(e.r) => e.back = e.w /\ e.off2 = e.off)                                          \* wall clock reads back
      \/ e.op = "from_utc"   /\ e.r = e.u /\ e.off2 = e.off /\ e.utcback = e.u
      \/ e.op = "wall"       /\ WallFields(e, Wall(e.u, e.off))
+     \* a zone with changing offsets: replacing a field = resolving the new wall clock in the zone (unique answer, or nothing)
+     \/ e.op = "tzwith_routes" /\ e.a = e.b
      \* From impls between DateTime<Utc> / <FixedOffset> / <Local>, NaiveDate <-> NaiveDateTime; ==, partial_cmp and the distance across types
      \/ e.op = "conv"       /\ e.fu = e.u /\ e.uf = e.u /\ e.uf_off = 0 /\ e.fl = e.u /\ e.lu = e.u /\ e.lf = e.u /\ e.lf_off_same /\ e.ul = e.u
                             /\ e.nd = e.u.n /\ e.dn = [n |-> e.u.n, secs |-> 0, frac |-> 0]
